@@ -35,6 +35,25 @@ CHECKS = {
                 text="Tens of thousands of structure-aware token mutants per run must yield Ok or a renderable Err; candidates are confirmed with the shipping macro. A watchdog maps hangs to exit 2.",
                 note="fallback-printer-only panics are not reported; depth beyond 64 is only sampled by the ladder (open finding F4b)"),
 }
+
+BEHAVE = {
+ "C02": ("5/C02","PartialEq against a rendered field-wise oracle over enumerated value pairs (+ equivalence laws on triples)"),
+ "C03": ("5/C03","PartialOrd/Ord against a rendered rank-ordered lexicographic oracle over same-variant pairs (+ order laws on triples)"),
+ "C04": ("5/C04","enum ordering against declared discriminants from four memory placements, over repr/discriminant/payload/variant-count classes"),
+ "C05": ("5/C05","Hash observed through a recording Hasher against per-field recorded sequences (reference model), all value pairs"),
+ "C06": ("5/C06","Debug output against an oracle written with core::fmt builders, both formats, plus a #[derive(Debug)] differential twin"),
+ "C07": ("5/C07","clone/clone_from against provenance-instrumented field types (Tracked, Weird), all ordered pairs"),
+ "C08": ("5/C08","default()/new() against the value the model designates, over literal kinds x field types x marker positions"),
+ "C09": ("5/C09","Deref/DerefMut by address identity with the designated field and write-through frame check"),
+ "C10": ("5/C10","Into against the model's designated field per target, plus trait-resolution probes for non-requested targets"),
+ "C20": ("5/C20","union impls against byte-pattern values (every single-byte difference) and byte-level oracles; unsafe-gating checked in-process"),
+}
+for pid,(design,what) in BEHAVE.items():
+    CHECKS[pid] = dict(engine="R" if pid!="C20" else "R+P", design=design,
+        technique="property-based testing with a reference-model oracle: generated type definitions compiled with the shipping macro by real rustc, observer compares educe's impl with a rendered oracle over enumerated values; "+what,
+        text="Each generated type is rendered with an oracle written from the documented semantics (sharing no code with educe) and an observer that enumerates values and checks every pair/triple; failures shrink through proptest to a minimal definition. "+what+".",
+        note="value domains are small by design (2-4 values per field, every single-field variation present); x86-64, rustc 1.95 debug build; requests hitting an open compile-level finding of C01 are excluded by construction and counted")
+CHECKS = dict(sorted(CHECKS.items()))
 ALL = ["C%02d" % i for i in range(1, 21)]
 
 def main():
